@@ -46,6 +46,7 @@ type Outcome struct {
 	Timers     []string // timers still armed when main returned
 	Violations []Violation
 	Log        []string
+	LogClock   []int64 // virtual clock at each log entry
 	Clock      int64 // clock when main returned (or at end)
 	EndClock   int64
 	Cost       int
@@ -117,6 +118,7 @@ func (e *Explorer) runOnce(prefix []int, trace bool) *exec {
 	o := &x.out
 	o.Status, o.Detail, o.Leaks, o.Violations, o.Log = s.status, s.detail, s.leaks, s.viols, s.log
 	o.Timers = s.pendingTimers
+	o.LogClock = s.logClock
 	o.Clock, o.EndClock, o.Cost, o.Crash = s.mainClock, s.clock, s.cost, s.crash
 	var hs []uint64
 	for _, t := range s.threads {
